@@ -618,38 +618,51 @@ pub fn check_history(hist: &Hist, rep: &mut Report) {
         return;
     }
 
-    // ---------------------------------------------------------------- C05 / C04: never swept early
-    // Below capacity (every key at its dearest still fits, max_cost never lowered) the processor has no
-    // reason to evict for room: outside clear()/close() calls (which hand buffered, never admitted
-    // values to on_evict) a value reaches on_evict only through the TTL cleanup, hence only once its
-    // deadline (at least: virtual time when its insert began + ttl) has passed, and never without a TTL.
-    {
+    // ---------------------------------------------------------------- C05 / C04 / C03: never swept early
+    // As long as every key inserted so far, at its dearest, still fits (and max_cost was never lowered)
+    // the processor has had no reason to evict for room: outside clear()/close() calls (which hand
+    // buffered, never admitted values to on_evict) a value reaches on_evict only through the TTL cleanup,
+    // hence only once its deadline (at least: virtual time when its insert began + ttl) has passed, and
+    // never without a TTL. "So far" = inserts whose call began before the callback.
+    if hist.h.cfg.ignore_internal && !ops.iter().any(|o| o.op == OP_MAXCOST) && hist.close_err.is_none() {
+        let mut inserts: Vec<&OpRec> = ops.iter().filter(|o| matches!(o.op, OP_INSERT | OP_IF_PRESENT)).collect();
+        inserts.sort_by_key(|o| o.call);
+        let writers: HashMap<u64, &OpRec> = inserts.iter().filter(|o| o.id != 0).map(|o| (o.id, *o)).collect();
+        let mutated: HashSet<u64> = hist.events.iter().filter_map(|e| if let EvKind::Mutate { new, .. } = e.kind { Some(new) } else { None }).collect();
+        let mut evs: Vec<&Ev> = hist.events.iter().filter(|e| matches!(e.kind, EvKind::Cb { kind: CB_EVICT, .. })).collect();
+        evs.sort_by_key(|e| e.seq);
         let mut dearest: HashMap<u64, i64> = HashMap::new();
-        for o in ops.iter().filter(|o| matches!(o.op, OP_INSERT | OP_IF_PRESENT)) {
-            let eff = if o.cost == 0 { o.aux } else { o.cost };
-            let e = dearest.entry(o.key).or_insert(0);
-            *e = (*e).max(eff);
-        }
-        let below_capacity = hist.h.cfg.ignore_internal && !ops.iter().any(|o| o.op == OP_MAXCOST) && dearest.values().map(|c| *c as i128).sum::<i128>() <= hist.h.cfg.max_cost as i128;
-        if below_capacity && hist.close_err.is_none() {
-            let writers: HashMap<u64, &OpRec> = ops.iter().filter(|o| matches!(o.op, OP_INSERT | OP_IF_PRESENT) && o.id != 0).map(|o| (o.id, o)).collect();
-            let mutated: HashSet<u64> = hist.events.iter().filter_map(|e| if let EvKind::Mutate { new, .. } = e.kind { Some(new) } else { None }).collect();
-            for e in hist.events.iter() {
-                if let EvKind::Cb { kind: CB_EVICT, id, key, .. } = e.kind {
-                    if e.seq >= hist.end_seq || clears.iter().any(|(c, r)| e.seq > *c && e.seq < *r) || mutated.contains(&id) {
-                        continue;
-                    }
-                    let Some(w) = writers.get(&id) else { continue };
-                    rep.count("ho_c05_evictions_below_capacity_checked");
-                    if w.ttl_ns == 0 {
-                        rep.violate("C05", "cleanup/removed-unexpired", format!("value #{id:x} (key {key}) was written by {} without TTL and handed to on_evict at [{}] although the cache never ran short of room (total of the dearest entries {} <= max_cost {})", w.short(), e.seq, dearest.values().sum::<i64>(), hist.h.cfg.max_cost), json!({"history": d, "evicted_at_seq": e.seq, "writer": w.short()}));
-                        rep.violate("C04", "cleanup/removed-unexpired", format!("value #{id:x} (key {key}) without TTL swept below capacity"), json!({"history": d, "evicted_at_seq": e.seq, "writer": w.short()}));
-                        rep.violate("C03", "cleanup/removed-unexpired", format!("value #{id:x} (key {key}) was written without TTL (by {}) and became invisible through the TTL cleanup", w.short()), json!({"history": d, "evicted_at_seq": e.seq, "writer": w.short()}));
-                    } else if e.vnow < w.vcall.saturating_add(w.ttl_ns) && w.vcall != 0 {
-                        rep.violate("C05", "cleanup/removed-unexpired", format!("value #{id:x} (key {key}) written by {} at virtual time >= {} with ttl {} ns was handed to on_evict at virtual time {} (seq {}), before its deadline, although the cache never ran short of room", w.short(), w.vcall, w.ttl_ns, e.vnow, e.seq), json!({"history": d, "evicted_at_seq": e.seq, "writer": w.short()}));
-                        rep.violate("C04", "cleanup/removed-unexpired", format!("value #{id:x} (key {key}) swept before its deadline below capacity"), json!({"history": d, "evicted_at_seq": e.seq, "writer": w.short()}));
-                        rep.violate("C03", "cleanup/removed-unexpired", format!("value #{id:x} (key {key}): the deadline of the insert that wrote it ({}, ttl {} ns, begun at virtual time {}) did not apply: swept at virtual time {}", w.short(), w.ttl_ns, w.vcall, e.vnow), json!({"history": d, "evicted_at_seq": e.seq, "writer": w.short()}));
-                    }
+        let mut total: i128 = 0;
+        let mut next = 0usize;
+        for e in evs {
+            while next < inserts.len() && inserts[next].call < e.seq {
+                let o = inserts[next];
+                let eff = if o.cost == 0 { o.aux } else { o.cost };
+                let d0 = dearest.entry(o.key).or_insert(0);
+                if eff > *d0 {
+                    total += (eff - *d0) as i128;
+                    *d0 = eff;
+                }
+                next += 1;
+            }
+            if total > hist.h.cfg.max_cost as i128 {
+                break; // from here on evictions for room are possible
+            }
+            if let EvKind::Cb { id, key, .. } = e.kind {
+                if e.seq >= hist.end_seq || clears.iter().any(|(c, r)| e.seq > *c && e.seq < *r) || mutated.contains(&id) {
+                    continue;
+                }
+                let Some(w) = writers.get(&id) else { continue };
+                rep.count("ho_c05_evictions_below_capacity_checked");
+                let wit = json!({"history": d, "evicted_at_seq": e.seq, "writer": w.short(), "dearest_entries_so_far": total.to_string(), "max_cost": hist.h.cfg.max_cost});
+                if w.ttl_ns == 0 {
+                    rep.violate("C05", "cleanup/removed-unexpired", format!("value #{id:x} (key {key}) was written by {} without TTL and handed to on_evict at [{}] although the cache had never run short of room (the dearest entries inserted so far cost {total} <= max_cost {})", w.short(), e.seq, hist.h.cfg.max_cost), wit.clone());
+                    rep.violate("C04", "cleanup/removed-unexpired", format!("value #{id:x} (key {key}) without TTL swept below capacity"), wit.clone());
+                    rep.violate("C03", "cleanup/removed-unexpired", format!("value #{id:x} (key {key}) was written without TTL (by {}) and became invisible through the TTL cleanup", w.short()), wit);
+                } else if e.vnow < w.vcall.saturating_add(w.ttl_ns) && w.vcall != 0 {
+                    rep.violate("C05", "cleanup/removed-unexpired", format!("value #{id:x} (key {key}) written by {} at virtual time >= {} with ttl {} ns was handed to on_evict at virtual time {} (seq {}), before its deadline, although the cache had never run short of room", w.short(), w.vcall, w.ttl_ns, e.vnow, e.seq), wit.clone());
+                    rep.violate("C04", "cleanup/removed-unexpired", format!("value #{id:x} (key {key}) swept before its deadline below capacity"), wit.clone());
+                    rep.violate("C03", "cleanup/removed-unexpired", format!("value #{id:x} (key {key}): the deadline of the insert that wrote it ({}, ttl {} ns, begun at virtual time {}) did not apply: swept at virtual time {}", w.short(), w.ttl_ns, w.vcall, e.vnow), wit);
                 }
             }
         }
